@@ -26,8 +26,10 @@ for p in props:
         "engine": "hypothesis",
         "level_claimed": {"category": m.LEVEL, "text": getattr(m, "LEVEL_TEXT", m.RULE), "design_ref": f"DESIGN.md section 6, {pid}"},
         "level_note": getattr(m, "LEVEL_NOTE", "; ".join(getattr(m, "ASSUMPTIONS", [])) or "oracle and generators as described in DESIGN.md"),
-        "technique": getattr(m, "TECHNIQUE", "property-based testing (Hypothesis) against an explicit oracle"),
+        "technique": getattr(m, "TECHNIQUE", "property-based testing (Hypothesis) against an explicit oracle")
+        + ("; thorough tier adds a coverage-guided fuzzing campaign (atheris/libFuzzer) on the same harness and oracle" if m.budget("thorough").get("fuzz_runs") else ""),
     })
+fuzzed = [c["property_id"] for c in checks if "atheris" in c["technique"]]
 man = {
     "version": 1,
     "setup_cmd": "./setup.sh",
@@ -41,6 +43,8 @@ man = {
     "engines": [
         {"name": "hypothesis", "path": "vf/worker.py", "serves_properties": [c["property_id"] for c in checks],
          "kind_free_text": "Hypothesis 6.168 @given strategies and RuleBasedStateMachine, 16 seeded shards per check, collect-and-continue over root-cause signatures, replay files as regression tier"},
+        {"name": "atheris", "path": "vf/worker.py", "serves_properties": fuzzed,
+         "kind_free_text": "atheris 3.1 (libFuzzer) as a second driver in the thorough tier: bytes are decoded by the property's Hypothesis strategy (fuzz_one_input), same run_case / signature / known-finding path; magpylib imported under instrument_imports; optional (skipped with a note in the evidence if atheris cannot be imported)"},
     ],
     "checks": checks,
     "not_applicable": na,
